@@ -565,6 +565,8 @@ class World:
     def on_message(self, msg):
         self.sim.log(self.sim.name(), "on_message", msg)
         self.msgs.append(msg)
+        # the consumer's callback is a place where other threads get to run
+        self.sim.yield_("on_message")
 
     def install_recorder(self, handler):
         """Record every sendpkt call (invoke / return, outcome) - also the
